@@ -185,19 +185,20 @@ static void mon_cas(const void* addr, mptr e, mptr d, _Bool ok, int o) {
 
 /* ------------------------------------------------------------------ representation invariant: builder */
 enum { K_FREE = 0, K_LINKED = 1, K_UNLINKED = 2 };
-unsigned char in_kind[L]; hkey in_key[L]; _Bool in_mark[L]; unsigned char in_unext[L]; _Bool in_retired[L];
+/* harness inputs are plain int/unsigned so that the native replay receives them as numbers */
+unsigned in_kind[L]; int in_key[L]; unsigned in_mark[L]; unsigned in_unext[L]; unsigned in_retired[L];
 unsigned char pre_kind[NP]; hkey pre_key[NP]; mptr pre_next[NP]; unsigned char pre_retired[NP];
 static void build(void) {
-  mptr nxt = 0; hkey lastkey = 0; _Bool have = 0;
+  mptr nxt = 0; int lastkey = 0; _Bool have = 0;
   for (int i = L - 1; i >= 0; i--) {
-    in_kind[i] = nondet_uchar(); in_key[i] = nondet_key(); in_mark[i] = nondet_bool(); in_unext[i] = nondet_uchar(); in_retired[i] = nondet_bool();
+    in_kind[i] = nondet_uint(); in_key[i] = nondet_key(); in_mark[i] = nondet_bool(); in_unext[i] = nondet_uint(); in_retired[i] = nondet_bool();
     XV_ASSUME(in_kind[i] <= K_UNLINKED && in_unext[i] <= NP);
-    pool[i].key = in_key[i]; g_cnt[i] = 0; u_unlink[i] = 0; u_retire[i] = 0; g_gen[i] = 0; g_linked[i] = 0;
+    pool[i].key = (hkey)in_key[i]; g_cnt[i] = 0; u_unlink[i] = 0; u_retire[i] = 0; g_gen[i] = 0; g_linked[i] = 0;
     if (in_kind[i] == K_LINKED) {
       XV_ASSUME(!have || in_key[i] < lastkey); lastkey = in_key[i]; have = 1;
       pool[i].next = nxt | (mptr)in_mark[i]; nxt = NADDR(i); g_alloc[i] = 1; g_pub[i] = 1; g_retired[i] = 0; g_linked[i] = 1;
     } else if (in_kind[i] == K_UNLINKED) {      /* marked, spliced out earlier; its frozen next may point anywhere (even to re-used memory) */
-      pool[i].next = (in_unext[i] == NP ? (mptr)0 : NADDR(in_unext[i])) | (mptr)1; g_alloc[i] = 1; g_pub[i] = 1; g_retired[i] = in_retired[i];
+      pool[i].next = (in_unext[i] == NP ? (mptr)0 : NADDR(in_unext[i])) | (mptr)1; g_alloc[i] = 1; g_pub[i] = 1; g_retired[i] = (unsigned char)in_retired[i];
     } else {                                    /* never allocated, or retired and already freed: content is garbage */
       pool[i].next = nondet_uptr(); g_alloc[i] = 0; g_pub[i] = nondet_bool(); g_retired[i] = 0;
     }
@@ -399,7 +400,7 @@ size_t inc_c0; unsigned char inc_gen0;
 #include "lowered.h"
 
 /* ================================================================== SEQ harnesses */
-hkey in_k; unsigned in_start, in_cur; size_t in_j;
+int in_k; unsigned in_start, in_cur; size_t in_j;
 
 /* find(key, info, backoff) from any well-formed list and any info a caller can pass: start at head, or at a guarded node `save`
  * with key(save) < key (linked, or marked, or already unlinked); info.cur holds any leftover guard */
@@ -486,7 +487,7 @@ void h_begin(void) {
   if (the_set.head == 0) XV_CANARY("begin.empty"); else XV_CANARY("begin.nonempty");
 }
 
-hkey in_gk;
+int in_gk;
 void h_emplace_or_get(void) {
   build(); in_k = nondet_key(); in_gk = nondet_key(); in_j = nondet_size(); XV_ASSUME(in_j < L);
   snapshot();
